@@ -276,8 +276,11 @@ func driveC14(g *sim.G, exec func(*sim.Op) *Viol) *Viol {
 }
 
 var C14 = register(&HistProp{ID: "C14",
-	Genesis: func(t *rapid.T) *sim.GenSpec { return sim.DrawGenesis(t, sim.GenOpts{BigBalances: true}) },
-	Drive:   driveC14, MaxOps: 1,
+	Genesis: func(t *rapid.T) *sim.GenSpec {
+		// a pre-funded module account lets a swallowed transfer failure go on to a successful burn
+		return sim.DrawGenesis(t, sim.GenOpts{BigBalances: true, PrefundMod: rapid.IntRange(0, 2).Draw(t, "prefund") == 0})
+	},
+	Drive: driveC14, MaxOps: 1,
 	New:     func() Checker { return &c14{} },
 	Require: []string{"nontrivial", "unfaulted-success", "fault-subset:[0]", "fault-subset:[1]", "fault-subset:[0 1]", "fault-after-effect",
 		"late:sr-unpaused", "late:body-fits", "late:messenger", "late:caller", "natural-dependency-failure"}})
